@@ -35,3 +35,15 @@ Example C18_runs :
    map (view_write_noalias (fun _ x => x) [6] dst rhs (fun p => 10 + p)) (seq 0 6))
   = ([10;10;10;10;10;15], [10;10;11;12;13;15]).
 Proof. vm_compute. reflexivity. Qed.
+
+(** * Tie to the source by translation (lib/cxx2v.py, re-run on every check): the `if (_does_alias)` branch of every
+    assignment operator of every view class (dynamic, compile-time, index-tensor and diagonal views; 74 overloads)
+    stages the operator's own argument into a temporary evaluated on the untouched original and then applies the SAME
+    assignment operator to the staged copy, and is guarded by `#if !(FASTOR_NO_ALIAS)` - i.e. [view_write_noalias] *)
+From Coq Require Import Bool Arith.
+From FastorV Require Import Gen.GeneratedViews Proofs.GenViewsEq.
+Theorem C18_source_noalias_branches :
+  forallb (fun b => let '(f, op, called, guard) := b in (op =? called) && guard) gen_noalias_branches = true /\
+  60 <= length gen_noalias_branches.
+Proof. exact gen_noalias_branches_ok. Qed.
+Print Assumptions C18_source_noalias_branches.
